@@ -7,7 +7,8 @@ thm = json.load(open(os.path.join(V, "theorems.json")))
 
 S_NOTE = ("Trusted: Lean kernel; Go channel/select/goroutine semantics as encoded in Sched.step; job bodies atomic; "
           "harness, hooks, driver parser and verdict script. The model is tied to scheduler/scheduler.go by trace replay of "
-          "every explored execution through the model's own executable definitions plus hook-free oracles on the real scheduler.")
+          "every explored execution through the model's own executable definitions plus hook-free oracles on the real scheduler; "
+          "for C05 C06 C19 additionally by facts regenerated from scheduler.go on every run (channel capacities, dispatch gate) re-checked by Lean decide.")
 
 D_NOTE = ("Trusted: Lean kernel; the transcription of the templates into Gen.runTask/runPred and of compile.go into Gen.validate; "
           "go/types, gofmt, build/constraint and text/template as libraries; harness/cmd/progrun and textrun, Driver.lean parsers, verdict script. "
